@@ -58,7 +58,9 @@ ProcessNext(w) ==
         /\ cur' = [cur EXCEPT ![w] = IF k < Len(Chunk(c)) THEN <<c, k + 1>> ELSE <<0, 0>>]
         /\ UNCHANGED <<nextChunk, Files, NProc>>
 
-Next == \E w \in Workers : Take(w) \/ ProcessNext(w)
+TakeAny == \E w \in Workers : Take(w)
+ProcessAny == \E w \in Workers : ProcessNext(w)
+Next == TakeAny \/ ProcessAny
 MaxProc == 3
 Spec == Init /\ [][Next]_vars /\ \A w \in 1..MaxProc : WF_vars(w \in Workers /\ Take(w)) /\ WF_vars(w \in Workers /\ ProcessNext(w))
 
